@@ -98,6 +98,11 @@ META_SETS = [
     (1000, 2555),                                          # texts of equal length: a torn in-place rewrite stays valid JSON
     ('abcd', 'wxyz'),
     ([np.array([1, 2]), {'a': np.float32(0.5)}], {'m': np.array([[1, 0], [0, 1]], dtype='uint8'), 'z': np.array(2.5)}),
+    # pairs that Python calls equal although they are different JSON values: replacing one by the other is a change
+    (1, True),
+    (False, 0),
+    (2, 2.0),
+    (5, np.array([5])),
 ]
 KEYNAMES = [{'k1': 'k1', 'k2': 'k2'}, {'k1': 'fs', 'k2': 'clé ☃'}, {'k1': 'a b', 'k2': ''}]
 
